@@ -156,7 +156,8 @@ func c19Ops(l *c19Live) []c19Op {
 		}
 		// bad parameters
 		for _, bad := range []string{"bad:no-label", "bad:no-seed", "bad:seed-passphrase-on-deterministic", "bad:encrypt-without-password", "bad:password-without-encrypt",
-			"bad:encrypted-temporary", "bad:unknown-type", "bad:invalid-mnemonic-bip44", "bad:xpub-encrypted", "bad:xpub-garbage"} {
+			"bad:encrypted-temporary", "bad:unknown-type", "bad:invalid-mnemonic-bip44", "bad:xpub-encrypted", "bad:xpub-garbage",
+			"bad:label-not-utf8", "bad:seed-not-utf8"} {
 			add(c19Op{Kind: "CreateWallet", Slot: -1, Type: wallet.WalletTypeDeterministic, Seed: used % len(seeds), Name: "fresh", Mode: bad})
 		}
 		// the directory refuses writes
@@ -186,6 +187,7 @@ func c19Ops(l *c19Live) []c19Op {
 		add(c19Op{Kind: "ScanAddresses", Slot: i, Pw: right, Arg: "last-active", RO: true})
 		add(c19Op{Kind: "UpdateWalletLabel", Slot: i, Arg: "label-2"})
 		add(c19Op{Kind: "UpdateWalletLabel", Slot: i, Arg: "label-2", RO: true})
+		add(c19Op{Kind: "UpdateWalletLabel", Slot: i, Arg: "label\xffnot-utf8"})
 		add(c19Op{Kind: "EncryptWallet", Slot: i, Pw: "right"})
 		add(c19Op{Kind: "DecryptWallet", Slot: i, Pw: "right"})
 		if enc {
@@ -339,6 +341,11 @@ func (l *c19Live) apply(op c19Op, check bool) (class string, vs []c19Violation) 
 				o.Type, o.XPub, o.Encrypt, o.Password = wallet.WalletTypeXPub, xpubs[0], true, []byte(pw1)
 			case "bad:xpub-garbage":
 				o.Type, o.XPub = wallet.WalletTypeXPub, "xpub-garbage"
+			case "bad:label-not-utf8":
+				// text that the JSON wallet file cannot hold as it is (an HTTP form value can carry such bytes)
+				o.Label = "label\xffone"
+			case "bad:seed-not-utf8":
+				o.Type, o.Seed = wallet.WalletTypeDeterministic, "seed\xffbytes"
 			}
 			name := ""
 			switch {
